@@ -10,6 +10,7 @@ import Mamba.Lemmas.CanonFCovStep
 import Mamba.Lemmas.CanonFCertJ
 import Mamba.Lemmas.CanonFCovFinal
 import Mamba.Lemmas.CanonFCovGens
+import Mamba.Lemmas.CanonFDfsMain
 import Mamba.Spec.Iso
 /-!
 # C01 / C02, pattern F — theorems about the faithful model of `graph/canonical.go` (`Mamba/Model/CanonF.lean`)
@@ -371,7 +372,7 @@ theorem refine_is_IR_refine {n : Nat} {nb : Nbrs} {cb fl : Sl Nat} {opts : Optio
 
 `IR.CertBelow g rf s x`: `x` is the certificate of a leaf of the unpruned tree below the node `s`.
 These are the mathematical cores; the depth-first bookkeeping that combines them (which children of which node have
-been visited when) is not yet proved — see notes/C01F.md. -/
+been visited when) is section (k). -/
 
 /-- (a) partial-certificate pruning: when `expandValue` reports "worse" with the certificate `value` of the singleton
 prefix `0..s-1` of the order `o`, every complete order `o'` that agrees with `o` on the positions `< s` (every leaf below
@@ -455,9 +456,9 @@ theorem frame_link_inv {n m : Nat} {nb : Nbrs} {rf : Nat} {r : IR.St} (hnb : NbO
 `CovFrames s vs incl path choices lv`: for every stack frame every processed child `w` of the frame's node is covered
 (`CovChild`): all leaves of the unpruned tree below it have a certificate `≤ currentBest` (`Complete`), or — on the
 first-leaf path — `w` is not the representative of its class in `firstLeafOrbits`. The theorems below are the
-transitions; the orbit facts they need (`hE1`, `S`/`hS`/`horb`) are stated as hypotheses — supplying them (generators
-recorded at a node of the first- or best-leaf path fix that node) and the four leaf cases are what remains of
-`canonF_eq_IR_canon`, see notes/C01F.md. -/
+transitions; the orbit facts they need (`hE1`, `S`/`hS`/`horb`) are stated as hypotheses here — they are supplied by the
+DFS-order layer `FrameAux` of section (k) (generators recorded at a node of the first- or best-leaf path fix that node),
+where the leaf cases are treated too and everything is assembled into `canonF_eq_IR_canon`. -/
 
 /-- certificate, generator and `currentBest` facts as a state-level invariant of the main loop -/
 theorem cert_state_inv {n m : Nat} {nb : Nbrs} (hnb : NbOK nb n)
@@ -626,17 +627,16 @@ theorem backjump_child_sound {n : Nat} {nb : Nbrs} {rf : Nat} {r : IR.St} (hnb :
     Complete n nb rf best (IR.childSt (irG n nb) rf (nodeL n nb rf r vs i) st c) :=
   backjump_child_complete hnb hA hD hp1 ht1 hc1 ho1 hp2 ht2 hc2 ho2 hcert hcommon hb hcv hst hcomp
 
-/-- `canon_eq_of_complete_partial` — the last step of `canonF_eq_IR_canon`: if the root of the unpruned tree is covered
-w.r.t. the certificate of the returned leaf (what `CovFrames` yields when the stack is empty, `frame_coverage_pop`), the
-returned certificate IS the canonical certificate of the IR model. PARTIAL: the hypothesis `hcomp` is not yet derived
-for the search (missing: the layer supplying the orbit hypotheses of the coverage transitions, see notes/C01F.md). -/
-theorem canon_eq_of_complete_partial {g : G} (hg : g.WF) {s0 : IR.St} (hw : s0.work ≠ []) {p : List Nat}
+/-- `canon_eq_of_complete` — the last step of `canonF_eq_IR_canon`: if the root of the unpruned tree is covered w.r.t. the
+certificate of the returned leaf (what the DFS invariant yields when the stack is empty), the returned certificate IS the
+canonical certificate of the IR model. The hypothesis `hcomp` is derived for the search in `canonF_eq_IR_canon_classes`. -/
+theorem canon_eq_of_complete {g : G} (hg : g.WF) {s0 : IR.St} (hw : s0.work ≠ []) {p : List Nat}
     (hp : p.Perm (List.range g.n))
     (hleaf : IR.tab g.n (fun v => p.idxOf v) ∈ IR.allLeaves (IR.ofSpec g) s0)
     (hcomp : Complete g.n (nbrsOf g) (IR.rfuel (IR.ofSpec g)) (certPos (nbrsOf g) p g.n)
       (IR.refine (IR.ofSpec g) (IR.rfuel (IR.ofSpec g)) s0)) :
     certPos (nbrsOf g) p g.n = IR.canonCertFrom (IR.ofSpec g) s0 :=
-  canon_eq_of_complete hg hw hp hleaf hcomp
+  CanonF.canon_eq_of_complete hg hw hp hleaf hcomp
 
 /-- `recorded_generator_fixes_ancestors`: the generator recorded when the current leaf (path `vs`, order `o2`) equals the
 reference leaf (path `vsR`, order `o1`) preserves the colouring of every common ancestor `nodeL vs L` of the two leaves —
@@ -660,5 +660,117 @@ theorem index_path_determines_nodes {n : Nat} {nb : Nbrs} {rf : Nat} {r : IR.St}
 theorem leaf_below_node_mono {n : Nat} {nb : Nbrs} (hnb : NbOK nb n) (rf : Nat) (vs : List Nat) (s : IR.St)
     (h : IR.IsPath (irG n nb) rf s vs) : IR.Mono n s.c (IR.nodeAt (irG n nb) rf s vs).c :=
   path_mono hnb rf vs s h
+
+/-! ## (k) completeness of the pruning: the faithful search returns the canonical certificate of the unpruned tree
+
+The complete invariant of the depth-first search (`Lemmas/CanonFDfs.lean`): with ghost data `Gh` (the vertex path of the
+current node, the order and vertex paths of the first and the best leaf, the automorphisms merged into
+`currentBestOrbits`), `DN`/`DA`/`DS`/`DM` combine the walk through the unpruned tree (`frame_link_inv`), the per-frame
+coverage `CovFrames`, `GlobalInv` (the stored leaves are leaves of the unpruned tree reached by `firstLeafPath` /
+`currentBestPath`; `currentBestOrbits` is generated by automorphisms) and `FrameAux` (DFS order: no unprocessed child lies
+on a stored path, a processed child on a stored path is complete, the recorded generators fix every ancestor on the
+first-leaf path — the orbit hypotheses `hE1`, `S`/`hS`/`horb` of the `frame_coverage_*` transitions). -/
+
+/-- `dfs_state_inv`: the complete DFS invariant is preserved by all transitions of the main loop (`deage`, the two
+Heuristic-2 skips, `splitBin` worse / not worse, pop, refinement worse / not worse, inner node, and the five leaf cases:
+first leaf, better leaf, leaf equal to the best leaf with back-jump, leaf equal to the first leaf with back-jump, other
+leaf), on top of the certificate invariants `cert_state_inv` -/
+theorem dfs_state_inv {n m : Nat} {nb : Nbrs} {rf : Nat} {r : IR.St} (hnb : NbOK nb n) (hsz : nb.size = n)
+    (hm : m = ((nb.toList.map List.length).sum) / 2) (hrf : 3 * n + 3 ≤ rf)
+    (hA : IR.InvA (irG n nb) r) (hD : IR.InvD (irG n nb) r)
+    (hlenm : ∀ o : List Nat, o.Perm (List.range n) → (certPos nb o n).length = m) :
+    MainJX n m nb (CertA n m nb) (CertN n m nb) (CertN n m nb) (CertM n m nb)
+      (DA n nb rf r) (DN n nb rf r) (DS n nb rf r) (DM n nb rf r) :=
+  dfsMainJX hnb hsz hm hrf hA hD hlenm
+
+/-- `dfs_state_init`: the invariants hold when `CanonicalIsomorphAllocated` enters the main loop (`InitSt`: the state
+after the initial refinement and `expandValue`), the root of the tree being the refined class colouring -/
+theorem dfs_state_init {n m : Nat} {nb : Nbrs} {rf : Nat} (hnb : NbOK nb n) (hrf : 3 * n + 3 ≤ rf) {opts : Options}
+    {op0 : OP} {s0 : LS} {si : IR.St} (hp : PartInv n op0) (ha : AgeInv op0) (hm0 : Match n op0 si) (hb0 : BtcInv op0)
+    (hbs : BinsSorted op0) (hage0 : op0.age = 0) (hi : InitSt n m nb opts op0 s0) :
+    CertM n m nb [] false s0 ∧ DM n nb rf (IR.refine (irG n nb) rf si) [] false s0 :=
+  dfs_init hnb hrf hp ha hm0 hb0 hbs hage0 hi
+
+/-- `allocated_state_inv`: every `MainJ` invariant that holds for the initial state holds, with an empty stack, for the
+state from which `CanonicalIsomorphAllocated` reads its results (general path, no viability check) -/
+theorem allocated_state_inv {fuel n m : Nat} {nb : Nbrs}
+    {JA JN JS : List (Nat × Nat) → LS → Prop} {JM : List (Nat × Nat) → Bool → LS → Prop} (hJ : MainJ n m nb JA JN JS JM)
+    {op0 : OP} {st : Storage} {opts : Options} {r : Res} {opR : Option OP} {stR : Storage}
+    (hn : n ≠ 0) (hgen : m = 0 → op0.binDividers.len ≠ 1) (hv : opts.checkViability = false)
+    (hp : PartInv n op0) (ha : AgeInv op0) (hage : op0.age = 0) (hspl : op0.spl = 0)
+    (hval : op0.value.len = 0)
+    (hinit : ∀ s0, InitSt n m nb opts op0 s0 → JM [] false s0)
+    (h : canonicalIsomorphAllocated fuel n m nb (some op0) st opts = .ok (r, opR, stR)) :
+    ∃ s, JA [] s ∧ r.perm = some s.bestPerm.toList ∧ r.orbits = some s.flOrbits.toList ∧
+      r.gens = some ((s.gens.toList.take s.ngens).map Sl.toList) :=
+  allocated_mainJ stablePerm expandValue_cert hJ hn hgen hv hp ha hage hspl hval hinit h
+
+/-- `canonF_eq_IR_canon_classes`: whenever `CanonicalIsomorphFull(g, classes)` returns (for ANY fuel), the certificate of
+the returned permutation — the sorted edge codes of the relabelled graph — is the lexicographically largest leaf
+certificate of the UNPRUNED search tree of `Model/IR.lean` started from the class colouring: all pruning of the Go code
+(partial-certificate comparison, Heuristic 2 / orbit pruning, Heuristic 1 back-jumping, the `m == 0` shortcut) is sound
+and complete. -/
+theorem canonF_eq_IR_canon_classes (fuel : Nat) (g : G) (hg : g.WF) (vc : Classes) (hvc : ClassesOK g.n vc)
+    (hn : g.n ≠ 0) (r : Res) (h : canonicalIsomorphFull fuel g vc = .ok r) :
+    ∃ op0 p, newOrderedPartition g.n (((nbrsOf g).toList.map List.length).sum / 2) vc = .ok (some op0) ∧
+      r.perm = some p ∧ p.Perm (List.range g.n) ∧
+      certPos (nbrsOf g) p g.n = IR.canonCertFrom (IR.ofSpec g) (irInit g op0) :=
+  canonF_complete_full fuel g hg vc hvc hn r h
+
+/-- `canonF_eq_IR_canon`: without vertex classes the certificate of the returned permutation is `IR.canonCert`, and the
+graph relabelled with the returned slice (`g.InducedSubgraph(perm)`) IS the canonical graph `IR.canonGraph` of the abstract
+model of property C01 (pattern A): the faithful model and the abstract model compute the same canonical form. -/
+theorem canonF_eq_IR_canon (fuel : Nat) (g : G) (hg : g.WF) (hn : g.n ≠ 0)
+    (r : Res) (h : canonicalIsomorphFull fuel g none = .ok r) :
+    ∃ p, r.perm = some p ∧ p.Perm (List.range g.n) ∧ certPos (nbrsOf g) p g.n = IR.canonCert (IR.ofSpec g) ∧
+      IR.ofSpec (g.induced p) = IR.canonGraph (IR.ofSpec g) := by
+  obtain ⟨p, hp, hperm, hc, _⟩ := canonF_eq_IR_canon_full fuel g hg hn r h
+  obtain ⟨p', hp', _, hi⟩ := canonF_induced_eq_canonGraph fuel g hg hn r h
+  rw [hp] at hp'
+  cases hp'
+  exact ⟨p, hp, hperm, hc, hi⟩
+
+/-- the relabelled graph as a decoded certificate -/
+theorem induced_eq_decoded_cert (g : G) (hg : g.WF) (p : List Nat) (hp : p.Perm (List.range g.n)) :
+    IR.ofSpec (g.induced p) = IR.ofCodes g.n (certPos (nbrsOf g) p g.n) :=
+  ofSpec_induced_eq_ofCodes g hg p hp
+
+/-- `canonF_canon_invariant`: the canonical form computed by the FAITHFUL model is invariant under relabelling — for a
+relabelled copy `g'` of `g` the two relabelled graphs `g.InducedSubgraph(perm)`, `g'.InducedSubgraph(perm')` are EQUAL
+(composition of `canonF_eq_IR_canon` with `C01.canon_invariant`). -/
+theorem canonF_canon_invariant (fuel fuel' : Nat) (g g' : G) (hg : g.WF) (hg' : g'.WF) (hn : g.n ≠ 0)
+    {σ τ : Nat → Nat} (R : IR.Relabel (IR.ofSpec g) (IR.ofSpec g') σ τ) (r r' : Res)
+    (h : canonicalIsomorphFull fuel g none = .ok r) (h' : canonicalIsomorphFull fuel' g' none = .ok r') :
+    ∃ p p', r.perm = some p ∧ r'.perm = some p' ∧ g.induced p = g'.induced p' := by
+  have hn' : g'.n ≠ 0 := by
+    have : g'.n = g.n := R.n_eq
+    omega
+  obtain ⟨p, p', hp, hp', hiff⟩ := canonF_induced_complete fuel fuel' g g' hg hg' hn hn' r r' h h'
+  exact ⟨p, p', hp, hp', hiff.2 ⟨σ, τ, R⟩⟩
+
+/-- `canonF_canon_complete`: two graphs get the same canonically relabelled graph if and only if they are isomorphic -/
+theorem canonF_canon_complete (fuel fuel' : Nat) (g g' : G) (hg : g.WF) (hg' : g'.WF) (hn : g.n ≠ 0) (hn' : g'.n ≠ 0)
+    (r r' : Res) (h : canonicalIsomorphFull fuel g none = .ok r) (h' : canonicalIsomorphFull fuel' g' none = .ok r') :
+    ∃ p p', r.perm = some p ∧ r'.perm = some p' ∧
+      (g.induced p = g'.induced p' ↔ IR.Iso (IR.ofSpec g) (IR.ofSpec g')) :=
+  canonF_induced_complete fuel fuel' g g' hg hg' hn hn' r r' h h'
+
+/-- the same for the unexported wrapper `CanonicalIsomorph` -/
+theorem canonF_canon_invariant_simple (fuel fuel' : Nat) (g g' : G) (hg : g.WF) (hg' : g'.WF) (hn : g.n ≠ 0)
+    {σ τ : Nat → Nat} (R : IR.Relabel (IR.ofSpec g) (IR.ofSpec g') σ τ) (q q' : Option (List Nat))
+    (h : canonicalIsomorph fuel g = .ok q) (h' : canonicalIsomorph fuel' g' = .ok q') :
+    ∃ p p', q = some p ∧ q' = some p' ∧ g.induced p = g'.induced p' := by
+  unfold canonicalIsomorph at h h'
+  cases hf : canonicalIsomorphFull fuel g none with
+  | ok r =>
+    cases hf' : canonicalIsomorphFull fuel' g' none with
+    | ok r' =>
+      rw [hf] at h; rw [hf'] at h'
+      cases h; cases h'
+      exact canonF_canon_invariant fuel fuel' g g' hg hg' hn R r r' hf hf'
+    | panic => rw [hf'] at h'; cases h'
+    | outOfFuel => rw [hf'] at h'; cases h'
+  | panic => rw [hf] at h; cases h
+  | outOfFuel => rw [hf] at h; cases h
 
 end C01F
